@@ -58,7 +58,7 @@ def plan(tier, seed):
 
 
 _SEP = ',;:-–—\t\n .'
-_CULL = re.compile(r'(\s+(the|all in|all of|of|in|and))+$', re.I)
+_CULL = re.compile(r'(\s+(the|all in|all of|all|of|in|and))+$', re.I)
 
 
 def loose(s):
